@@ -137,5 +137,11 @@ FUNCTIONS = {
             "forall(range(len(result)), lambda i: old(is_mono(host, pattern, result[i], node_attrs, edge_attrs)))",
             "len(result) <= (threshold if threshold is not None else 5000)",
         ],
+        # the final guard returns the strategy's answer unchanged unless it exceeds the threshold (then the empty list);
+        # with the pre-filter off nothing else can empty the result.  (Which strategy was run is NOT visible to this contract:
+        # the strategies' own answers are compared with brute force by the bounded twin.)
+        "ghost_ensures": ["implies(len(results) <= thresh, same(result, results))",
+                          "implies(len(results) > thresh, len(result) == 0)",
+                          "thresh == (threshold if threshold is not None else 5000)"],
     },
 }
